@@ -6,11 +6,14 @@
 * cache theorems over `run`: a cached call returns the identical module without running the body and
   without changing any state; a completed call is cached; a generator that hands on another
   generator's module does not rename it.
-* The md5-of-JSON form (non-scalar parameter classes, or names of 128+ characters) is **not**
-  modelled: its injectivity rests on md5 collision freedom and on `json.dumps`; it is covered by the
-  correspondence only (pairwise distinctness of names over generated parameter values).
+* The md5-of-JSON form (non-scalar parameter classes, or names of 128+ characters):
+  `hashed_encoding_injective` — the JSON *tree* `hdl21_naming_encoder` makes of a parameter value (NameEnc.lean)
+  determines the value, for every declared type whose unions are told apart by the kind of JSON they produce
+  (`Optional[T]`, `Union[Prefixed, Literal]`, …; `Union[str, Prefixed]` is not, `union_needs_distinct_kinds`).
+  What is left to trust is `json.dumps` as an injective rendering of trees, and md5 collision freedom.
 -/
 import Hdl21Model.Naming
+import Hdl21Model.Lemmas.NameEnc
 namespace Hdl21.Props.C09
 open Hdl21.Naming
 
@@ -248,5 +251,45 @@ theorem fresh_named (prog : Call → Body) (f : Nat) (s s2 s' : St) (c : Call)
   obtain ⟨h1, h2⟩ := h
   subst h1; subst h2
   simp [lookup]
+
+/-! ## the hashed form -/
+section Hashed
+open Hdl21.NameEnc
+
+/-- **The tree the naming encoder hashes determines the parameter value**: two values of one declared type with the same
+    encoding are the same value — in particular a field at `0`, `False`, `""`, `()` is not a field at `None`, an enum member is
+    its value and nothing else, a nested param-class is its fields in order. -/
+theorem hashed_encoding_injective (t : Ty) (hw : t.wf = true) (a b : PV) (ha : has t a = true) (hb : has t b = true)
+    (h : enc a = enc b) : a = b :=
+  enc_inj t hw a b ha hb h
+
+/-- what a value's encoding looks like, kind by kind -/
+theorem hashed_encoding_kinds :
+    enc .none = .null ∧ (∀ b, enc (.bool b) = .bool b) ∧ (∀ i, enc (.int i) = .int i) ∧ (∀ s, enc (.str s) = .str s) ∧
+    (∀ v, enc (.enum v) = enc v) ∧ (∀ c, enc (.prefixed c) = .str c) ∧ (∀ q, enc (.named q) = .str q) ∧
+    (∀ xs, enc (.tuple xs) = .arr (encList xs)) ∧ (∀ fs, enc (.pc fs) = .obj (encFields fs)) := by
+  refine ⟨?_, ?_, ?_, ?_, ?_, ?_, ?_, ?_, ?_⟩ <;> intros <;> simp [enc]
+
+/-- the hypothesis on unions is needed: a string and a prefixed number of the same text are hashed alike -/
+theorem union_needs_distinct_kinds :
+    enc (.str "1") = enc (.prefixed "1") ∧ (Ty.union .str .prefixed).wf = false := by
+  constructor
+  · simp [enc]
+  · decide
+
+/-- a shape as the check generates them: an enum, an optional int, an optional tuple, a nested param-class with optional
+    fields, a generator-valued field; its type is well-formed, and `trim = 0`, `trim = None` are two values of it -/
+def exTy : Ty := .pc [("corner", .enum .str), ("trim", .union .none .int), ("taps", .union .none (.tuple .int)),
+  ("sub", .pc [("gain", .union .none .float), ("tag", .union .none .str)]), ("cell", .named)]
+def exVal (trim : PV) : PV := .pc [("corner", .enum (.str "tt")), ("trim", trim), ("taps", .tuple []),
+  ("sub", .pc [("gain", .float "0.0"), ("tag", .none)]), ("cell", .named "liba.Cell")]
+
+example : exTy.wf = true ∧ has exTy (exVal (.int 0)) = true ∧ has exTy (exVal .none) = true := by decide
+
+example : enc (exVal (.int 0)) ≠ enc (exVal .none) := by
+  intro h
+  have := hashed_encoding_injective exTy (by decide) _ _ (by decide) (by decide) h
+  simp [exVal] at this
+end Hashed
 
 end Hdl21.Props.C09
